@@ -91,6 +91,7 @@ def run(ctx):
                    site="%s in %s" % (r.span, f.id))
     ctx.floor("R09.1", 12)
     ctx.floor("R09.2", 3)
+    merge_targets(ctx, merges)
 
     check_highest(ctx)
     check_used_types(ctx)
@@ -210,3 +211,32 @@ def check_used_types(ctx):
         ctx.ob("R09.4", "name-guard|" + name, bool(ne), "an existing use with a different export name is rejected" if ne else
                "the export names of an existing and a new use are not compared", site=f.span)
     ctx.ob("R09.4", "count", n == 2, "used-type merge functions: %d" % n, nontrivial=False)
+
+
+def merge_targets(ctx, merges, rule="R09.1"):
+    """the item merged from `types[id].<coll>` is inserted into `self.types[existing].<coll>` — the same collection."""
+    db, prov = ctx.db, ctx.prov
+    n = 0
+    for f in sorted(merges, key=lambda x: x.id):
+        cfg = CFG(f)
+        name = f.id.rsplit("::", 1)[1]
+        for t in f.calls():
+            if not ((t.path or "").endswith("IndexMap::insert") and cfg.reaches(t.bb, t.bb)):
+                continue
+            rs = narrow(prov, f, t.args[0])
+            if not rs.has_field("types", "aggregator::TypeAggregator"):
+                continue
+            dst = {x for x in ("imports", "exports", "uses") if rs.has_field(x)}
+            ks = prov.slice(f, t.args[1])
+            src = {x for x in ("imports", "exports", "uses") if ks.has_field(x) and ks.has_call("::next")}
+            # the key comes from iterating the foreign collection: its field tells which list is being merged
+            tp = types_param(f)
+            if not src or len(dst) != 1:
+                continue
+            n += 1
+            ok = dst <= src and len(src) == 1
+            ctx.ob(rule, "%s|insert-into-%s" % (name, "/".join(sorted(dst))), ok,
+                   "items merged from the contributor's `%s` are inserted into the aggregate's `%s`" % ("/".join(sorted(src)), "/".join(sorted(dst))) if ok else
+                   "items taken from the contributor's `%s` are inserted into the aggregate's `%s` (copy/paste between the two loops): the merged type loses them" % ("/".join(sorted(src)), "/".join(sorted(dst))),
+                   site="%s in %s" % (t.span, f.id))
+    ctx.ob(rule, "merge-insert-count", n >= 6, "merge-loop inserts checked: %d" % n, nontrivial=False)
